@@ -166,3 +166,13 @@ contract('System.get_net_value_of_assets', props=['C16'], args={}, result='real'
                       'result == old(sum(asset_value(a) for a in self._assets if isinstance(a, Asset)))',
                   'registry_untouched': 'seq(self._assets) == old(seq(self._assets))'},
          modifies=[])
+
+# --------------------------------------------------------------------------- the finite-sum lemma the engine uses as an axiom
+# lsum(a, 0) = 0, lsum(a, n) = lsum(a, n-1) + a[n-1] are definitions; the congruence axiom (sequences that agree on [0, n) have the
+# same sum) is a lemma by induction on n.  Its base case and induction step are discharged here as closed obligations that use
+# the two defining equations only, so the axiom is no longer a trusted item.
+from pyvc import calls as _calls
+_b, _s = _calls.lsum_congruence_induction()
+lemma('lsum.congruence.base', lambda: _b, ['C16', 'C17'], note='P(0): sequences that agree on the empty prefix have the same (empty) sum')
+lemma('lsum.congruence.step', lambda: _s, ['C16', 'C17'],
+      note='n >= 0 and P(n) imply P(n+1), P(n) := forall a b. (forall i in [0,n). a[i] == b[i]) -> lsum(a,n) == lsum(b,n)')
